@@ -190,8 +190,10 @@ def claim_of(P, r):
         if s["name"] in fnames and v.get("t") != "int":
             continue                   # a user function's own symbol: not a label or constant of the program
         isint = v.get("t") == "int"
+        isbool = v.get("t") == "bool"
         wide = isint and (len(str(v["v"])) > 11 or not (-BIG < int(v["v"]) < BIG))
-        syms.append({"name": s["name"], "int": isint, "wide": bool(wide), "v": int(v["v"]) if isint and not wide else 0,
+        syms.append({"name": s["name"], "int": isint, "bool": isbool, "wide": bool(wide),
+                     "v": (int(v["v"]) if isint and not wide else (1 if isbool and v.get("b") else 0)),
                      "size": -1 if (not isint or v.get("size") is None) else v["size"]})
     return {"pos": pos, "sizes": sizes, "bits": bits, "syms": syms}
 
@@ -268,6 +270,12 @@ def run_c15(ck):
     progs = [genasm.gen_symbol_program(rng) for _ in range(n)]
     jobs = [{"mode": "asm", "files": {"main.asm": genasm.render_program(P)}, "roots": ["main.asm"],
              "want": {"messages": False, "spans": False}} for P in progs]
+    # families of the same names under several parents
+    for _ in range(150 if quick else 3000):
+        P = genasm.gen_twin_scopes(rng)
+        progs.append(P)
+        jobs.append({"mode": "asm", "files": {"main.asm": genasm.render_program(P)}, "roots": ["main.asm"],
+                     "want": {"messages": False, "spans": False}})
     # slices indexed through constants, declared in every order
     for _ in range(60 if quick else 1500):
         P = genasm.gen_slice_consts(rng)
@@ -446,9 +454,28 @@ def run_c17(ck):
                     return True
         return False
 
+    def local_captured_by_textual_macro(P):
+        # the same, where the receiving macro has a by-value local of the SAME NAME: the pasted `__d' then names that
+        # one (wrong bits instead of an unknown symbol)
+        macros = {r["pat"][0]["lc"]: r for r in P["rules"] if r["prod"].get("k") == "asm"}
+        for n, r in macros.items():
+            locs = {a["name"] for a in r["prod"].get("assigns") or []}
+            for ln in r["prod"]["lines"]:
+                if ln["k"] != "instr" or not ln["toks"]:
+                    continue
+                callee = macros.get(ln["toks"][0].get("lc"))
+                if callee is None:
+                    continue
+                theirs = {a["name"] for a in callee["prod"].get("assigns") or []}
+                if any(t["k"] == "ph" and t["s"] in locs and t["s"] in theirs for t in ln["toks"][1:]):
+                    return True
+        return False
+
     for case in sorted(failed):
         for tag in sorted(set(failed[case])):
             if tag == "rejected-but-accepted-by-rules" and local_into_textual_macro(progs[case]):
+                tag += ":local-passed-into-textual-macro"
+            elif tag == "bits" and local_into_textual_macro(progs[case]) and local_captured_by_textual_macro(progs[case]):
                 tag += ":local-passed-into-textual-macro"
             elif tag == "rejected-but-accepted-by-rules" and forward_label_in_macro_call(progs[case]):
                 tag += ":macro-call-with-forward-label"
